@@ -297,6 +297,13 @@ func runMutant(repo string, p *rules.Property, name string) int {
 		}
 		mutated = strings.Replace(mutated, m.Old2, m.New2, 1)
 	}
+	for i, sp := range m.More {
+		if strings.Count(mutated, sp[0]) != 1 {
+			fmt.Printf("MUTANT %s skipped: search text #%d occurs %d times in %s\n", name, i+3, strings.Count(mutated, sp[0]), m.File)
+			return 4
+		}
+		mutated = strings.Replace(mutated, sp[0], sp[1], 1)
+	}
 	res, _, err := runOnce(load.Config{Dir: repo, Overlay: map[string][]byte{file: []byte(mutated)}}, p, "quick")
 	if err != nil {
 		fmt.Printf("MUTANT %s skipped: mutant does not type-check: %v\n", name, oneLine(err.Error()))
